@@ -203,6 +203,7 @@ type meter struct {
 	notes  []string
 	tags   []string
 	failFP, failWhat string
+	failDetail       string
 }
 
 func (m *meter) begin() { m.a0 = totalAlloc(); m.began = true }
@@ -232,6 +233,7 @@ type caseResult struct {
 	CPUus   int64
 	Restore string
 	FailFP, FailWhat string
+	FailDetail       string
 	Notes   []string
 	Aborted int // the case was cut off after the node had sent this many bytes (far beyond the yardstick)
 }
@@ -402,7 +404,7 @@ loop:
 	res.Input = m.input
 	res.Items = m.items
 	if !abandoned {
-		res.FailFP, res.FailWhat, res.Notes = m.failFP, m.failWhat, m.notes
+		res.FailFP, res.FailWhat, res.FailDetail, res.Notes = m.failFP, m.failWhat, m.failDetail, m.notes
 	}
 	if res.Panic != nil {
 		res.Outcome = "PANIC:" + res.Panic.Func
@@ -618,7 +620,7 @@ func runChunk(f *Family, cmd command) *reply {
 		}
 		rep.Notes = append(rep.Notes, r.Notes...)
 		if r.FailFP != "" {
-			rep.Violations = appendV(rep.Violations, violation{FP: r.FailFP, What: r.FailWhat, Case: c.Name, Fam: f.Name, Kind: "hang"})
+			rep.Violations = appendV(rep.Violations, violation{FP: r.FailFP, What: r.FailWhat, Case: c.Name, Fam: f.Name, Kind: "hang", Detail: r.FailDetail})
 			// something of that case is still spinning or blocked: this worker ends here
 			rep.Outcomes[key]++
 			rep.Next = i + 1
